@@ -35,7 +35,9 @@ class TTMatrix:
 
         assert len(input_dims) == len(output_dims)
         assert len(input_dims) > 0
-        assert isinstance(ranks, list) and len(ranks) == len(input_dims) - 1
+        assert isinstance(t, list) or (
+            isinstance(ranks, list) and len(ranks) == len(input_dims) - 1
+        )
 
         self.input_dims = torch.tensor(input_dims)
         self.output_dims = torch.tensor(output_dims)
@@ -218,7 +220,7 @@ class TTMatrix:
                 "The argument should be a Kronecker product (tt-ranks " "should be 1)"
             )
 
-        if torch.equal(self.input_dims, self.output_dims):
+        if not torch.equal(self.input_dims, self.output_dims):
             raise ValueError(
                 "The argument should be a Kronecker product of square "
                 "matrices (tt-cores must be square)"
@@ -331,7 +333,7 @@ class TTMatrix:
             else:
                 core_cho = torch.linalg.cholesky(self.cores[core_idx][0, :, :, 0])
                 core_cho = torch.unsqueeze(core_cho, 0)
-            core_cho.append(torch.unsqueeze(core_cho, -1))
+            cho_cores.append(torch.unsqueeze(core_cho, -1))
 
         # NOTE: ranks will be computed based on cores shape
         return TTMatrix(cho_cores, None, self.input_dims, self.output_dims)
